@@ -180,6 +180,24 @@ check("C26", "model_checking",
       "TLA+ state machine of the runtime classes model-checked by TLC; behaviours replayed on the real classes under every supported interpreter",
       "DESIGN.md section 6 C26")
 
+check("C20", "model_checking",
+      "ImportGraph.tla: the initial states are all import functions over N modules (3 quick, 4 thorough; self-imports, cycles of any length, diamonds), larger projects of 7 modules are drawn import by import in simulation (general and acyclic-by-construction); the state machine executes the entry module under the stated semantics (a module's top level runs once, its imports first). TLC checks Once, StackOK, AllReached and Terminates (liveness under weak fairness) and emits every final state with the reachable modules, the modules on cycles and the order of the `init` lines. Each graph, distinct on its reachable part, is written as a project (typed public bindings, `dep.x: Int` ascriptions for every import, one unused private variable per module, `print! \"init m\"`) and given to the real `erg check` and `erg run`: both terminate without crash, the project is accepted, each reachable module's unused-variable warning appears exactly once (analysed once), every `init m` is printed once and, for acyclic graphs, in the specification's order.",
+      "Trusted: TLC; the project renderer in py/verif/props/c20.py; the unused-variable warning as the observable of 'analysed once'. Thread interleavings of the real build are not modelled here (C19 varies them).",
+      "TLA+ model of module execution over all import graphs checked by TLC; every graph replayed as a real project through `erg check` and `erg run`",
+      "DESIGN.md section 6 C19/C20 and section 12")
+
+check("C19", "model_checking",
+      "The projects are ImportGraph.tla's (all import functions over 3 modules, simulated cyclic and acyclic projects of 7): in the specification the outcome of a build is a function of the import function alone (the machine has no scheduling choice), so every schedule of the real parallel build must give that one outcome. Each project is compiled by `erg compile` unjittered, under 3 (quick) / 8 (thorough) seeds of the hook `erg_common::spawn::verif_jitter` (cfg(erg_verif): every analysis thread sleeps for a seed- and module-dependent time at its start and before its end), pinned to one core, and by a build of erg with the `parallel` feature off (harness_seq/ergseq). Bytes 16.. of the entry's .pyc and the sorted diagnostics (severity, code, file, line, message) must be identical across all runs. Canary: the jitter hook measurably delays a build.",
+      "Trusted: TLC; the hook placement (thread start and end, not inside the promise table); time-outs of 180 s per compile.",
+      "TLA+ model (schedule-free build outcome) checked by TLC; generated projects compiled under hook-injected thread timings and with the sequential build, artefacts compared",
+      "DESIGN.md section 6 C19/C20 and section 12")
+
+check("C30", "model_checking",
+      "Rename.tla derives programs whose tokens carry the number of the binding they denote (globals, functions, parameters and lambda parameters that shadow globals, default arguments referring to globals, closures, results of calls) and string literals containing the same spelling on the same line; TLC checks WellScoped on every program (exhaustive up to 4 lines, simulated up to 8). For every occurrence of every binding the real language server (els through molc's FakeClient, `vh_els rename`) is asked to rename it to a fresh identifier after it has analysed the document; the workspace edit is applied: the renamed program must type-check exactly when the original does, print the same output, and no token of the binding may keep the old spelling.",
+      "Trusted: TLC; the token layout in py/verif/props/c30.py; the in-process compile-and-run harness for the before/after comparison.",
+      "TLA+ derivation of programs with explicit binding structure checked by TLC; every rename request replayed on the real language server and the edited program compiled and run",
+      "DESIGN.md section 6 C30 and section 12")
+
 NOT_APPLICABLE = {
     "C16": "static comparison of opcode/magic tables with external ground truth: no state or behaviour for a TLA+ specification to constrain (DESIGN.md section 7)",
     "C27": "data audit of ~150 declaration files against installed interpreters/typeshed: no behaviour to model in TLA+ (DESIGN.md section 7)",
